@@ -1740,7 +1740,7 @@ func compare(res *vh.Result, a vh.Args, cases []*testCase, searchOnly bool) {
 				detail += fmt.Sprintf("; implementation %s, math/big oracle %s", c.impl[n], c.oracle[n])
 			}
 			res.Mismatch(vh.Mismatch{
-				ID: fmt.Sprintf("%s#%d", f[1], n), Kind: kind, Key: c.names[n], Detail: fmt.Sprintf("op %d of the case: %s", n, detail),
+				ID: fmt.Sprintf("%s#%d", f[1], n), Kind: kind, Key: c.names[n], Detail: fmt.Sprintf("op %d of the generated sequence (the replay case keeps only the operations it depends on): %s", n, detail),
 				Case: cs, PropFail: propFail, What: c.what,
 			})
 			break // later tokens of the same sequence depend on this one
